@@ -62,6 +62,9 @@ type Plan struct {
 	// CoincideReorg: the head event that carries a reorg affecting the current epoch's attester duties arrives
 	// exactly when that slot's attestation job is due (slot start + attestation delay).
 	CoincideReorg bool `json:"coincide_reorg,omitempty"`
+	// AnswerAtRequest: a node computes the answer to a duties request when the request arrives and the
+	// latency is the way back (default: the answer reflects the chain at the moment it is returned).
+	AnswerAtRequest bool `json:"answer_at_request,omitempty"`
 	// StallAfterSchedulePct: chance (per ScheduleJob call, decided on the schedule tape) that the
 	// calling goroutine is held for 1 ms .. 2 slots after the call returns.  Only scenarios whose
 	// oracle does not depend on set-up latency enable it.
